@@ -391,9 +391,7 @@ impl Lowerer<'_, '_> {
         let args: Vec<_> = args
             .into_iter()
             .zip(mir_signature.parameter_types)
-            .filter_map(|(v, t)| {
-                self.layout_of(t).filter(|l| !l.is_zero_sized()).map(|_| v)
-            })
+            .filter_map(|(v, t)| self.lower_type(t).map(|_| v))
             .collect();
 
         // Transform all the arguments to LIR.
@@ -1114,7 +1112,9 @@ impl Lowerer<'_, '_> {
     }
 
     fn lower_type(&mut self, ty: TyRef) -> Option<IrType> {
-        if self.layout_of(ty).is_some_and(|l| l.size() == 0) {
+        if !matches!(self.ctx.type_info.ty_pool.get(ty), Ty::Runtime(_))
+            && self.layout_of(ty).is_some_and(|l| l.size() == 0)
+        {
             return None;
         }
 
